@@ -46,7 +46,7 @@ package biscuit
 //@ ensures signed_by_root: err == nil ==> link(pubOfPriv(bview(root)), res.container.Authority)
 
 //@ func (b *Biscuit) Append(rng io.Reader, block *Block) (res *Biscuit, err error)
-//@ serves C01 C08 C09 C10 C16 C17 C19 C20
+//@ serves C01 C07 C08 C09 C10 C16 C17 C19 C20
 //@ requires wfToken(b) && blockWF(block)
 //@ modifies nothing
 //@ loop 0 invariant forall j int :: { blocks[j] } 0 <= j && j < #i ==> blocks[j] != nil && fresh(blocks[j]) && wfBlock(blocks[j])
@@ -61,7 +61,7 @@ package biscuit
 //@ ensures signed_by_held_key: err == nil ==> link(pubOfPriv(privOfSeed(old(bview(nextSecret(b.container.Proof))))), res.container.Blocks[len(b.container.Blocks)])
 
 //@ func (b *Biscuit) Seal(rng io.Reader) (res *Biscuit, err error)
-//@ serves C01 C08 C09 C10 C16 C17 C19
+//@ serves C01 C07 C08 C09 C10 C16 C17 C19
 //@ requires wfToken(b)
 //@ modifies nothing
 //@ loop 0 invariant forall j int :: { blocks[j] } 0 <= j && j < #i ==> blocks[j] != nil && fresh(blocks[j]) && wfBlock(blocks[j])
